@@ -826,12 +826,21 @@ class World(object):
         Shut-down all simulators and close the server socket.
         """
         if not self.loop.is_closed():
+            # A simulator that fails while it is being stopped (e.g. its
+            # finalize() raises) must not keep the remaining simulators
+            # from being stopped nor the loop from being closed.
+            errors: List[Exception] = []
             for sim in self.sims.values():
-                self.loop.run_until_complete(sim.stop())
+                try:
+                    self.loop.run_until_complete(sim.stop())
+                except Exception as e:
+                    errors.append(e)
 
             self.loop.stop()
             self.loop.run_forever()
             self.loop.close()
+            if errors:
+                raise errors[0]
 
 
 if TYPE_CHECKING:
